@@ -437,6 +437,19 @@ def check_main(
     }
     if recheck is not None:
         cov["stats"] = dict(cov["stats"], leanchecker=recheck)
+    # which source this run was tied to: digests of the property's anchored files as they were read
+    try:
+        import hashlib
+
+        repo = Path(os.environ.get("ANYIO_REPO", "/repo"))
+        anchors = next(json.loads(l) for l in (ROOT / "properties.jsonl").read_text().splitlines()
+                       if l.strip() and json.loads(l)["id"] == prop)["anchors"]["files"]
+        cov["stats"] = dict(cov["stats"], source_tied_to={
+            "repo": str(repo),
+            "files": {f: hashlib.sha256((repo / f).read_bytes()).hexdigest()[:16] for f in anchors
+                      if (repo / f).is_file()}})
+    except Exception as e:  # noqa: BLE001  (never let bookkeeping affect the verdict)
+        cov["stats"] = dict(cov["stats"], source_tied_to=f"unavailable: {e!r}")
     ev = {
         "property_id": prop,
         "tier": tier,
